@@ -149,6 +149,7 @@ static void myth_setup_worker(int rank) {
   myth_log_worker_init(env);
   myth_set_worker_key();
   myth_set_current_env(env);
+  MYTH_VERIF_WORKER(rank);
   //Initialize random seed
   myth_random_init(((unsigned)time(NULL)) + rank);
   //Initialize runqueue
@@ -251,6 +252,7 @@ static void myth_setup_worker(int rank) {
 //Cleanup a worker thread
 static inline void myth_cleanup_worker(int rank)
 {
+  MYTH_VERIF_LEAVE(rank);
 #if MYTH_ECO_MODE
   if (g_eco_mode_enabled){
     myth_wakeup_all();
@@ -361,6 +363,7 @@ MYTH_CTX_CALLBACK void myth_startpoint_exit_ex_1(void *arg1,void *arg2,void *arg
   myth_running_env_t target=&g_envs[rank];
   th->env=target;
   while (!myth_queue_trypass(&target->runnable_q,th)){
+    MYTH_VERIF_SPIN(mythv_p_migrate_home, target->runnable_q.lock.locked);
     target=myth_env_get_randomly();
     th->env=target;
   }
@@ -382,6 +385,7 @@ static void myth_notify_workers_exit(void) {
     if (0) { }
 #endif
     else{
+      MYTH_VERIF_POINT(mythv_p_exit_flag, g_envs[i].exit_flag);
       if (g_envs[i].exit_flag == 0)
 	g_envs[i].exit_flag = 1;
     }
@@ -626,6 +630,9 @@ static void myth_sched_loop(void)
     if (!next_run){
       //next_run=myth_steal_from_others(env);
       next_run=g_myth_steal_func(env->rank);
+    }
+    if (!next_run) {
+      MYTH_VERIF_IDLE(mythv_p_sched_idle, env->rank);
     }
     if (next_run)
       {
